@@ -49,8 +49,16 @@ def c18_1(c: Ctx) -> None:
             return True
         if n.kind == 'if' and any(rm(x) for b in n.ast.body for x in ast.walk(b)):
             conj = n.ast.test.values if isinstance(n.ast.test, ast.BoolOp) and isinstance(n.ast.test.op, ast.And) else [n.ast.test]
-            # "remove if present": every conjunct is a membership test on self.handlers
-            return all(isinstance(x, ast.Compare) and isinstance(x.ops[0], ast.In) and f'{self_}.handlers' in U(x.comparators[0]) for x in conj)
+            # "remove if present": every conjunct is a presence test on self.handlers (membership, or the looked-up list is there / not empty)
+            def presence(x) -> bool:
+                if isinstance(x, ast.Compare) and len(x.ops) == 1 and isinstance(x.ops[0], ast.In):
+                    return f'{self_}.handlers' in U(x.comparators[0])
+                if isinstance(x, ast.Compare) and len(x.ops) == 1 and isinstance(x.ops[0], ast.IsNot) and isinstance(x.comparators[0], ast.Constant) and x.comparators[0].value is None:
+                    x = x.left
+                return (isinstance(x, ast.Call) and call_name(x) == 'get' and U(x.func.value) == f'{self_}.handlers' and len(x.args) == 1) or \
+                    (isinstance(x, ast.Subscript) and U(x.value) == f'{self_}.handlers')
+
+            return all(presence(x) for x in conj)
         return False
 
     bad = None
